@@ -114,26 +114,22 @@ theorem spipe_sden {σ0 : Type} {base : SM σ0 α} {c : σ0 → Nat} (p : SPipe 
   | chunkFlat n p ih => exact flattenSlices_sden (chunk_sden n ih [])
 
 /-- **A stream pipeline of any depth forwards `Next` and `Close` to its base stream**: every step makes
-at most one base step (under the same context), `Close` is exactly one base `Close`. The hypotheses are
-the regenerated `s.inner.Close()` facts. -/
-theorem spipe_forwards {σ0 : Type} (base : SM σ0 α) (p : SPipe α)
-    (hFi : stFilterCloseForwards = true := by decide) (hM : stMapCloseForwards = true := by decide)
-    (hF : stFirstCloseForwards = true := by decide) (hW : stWhileCloseForwards = true := by decide)
-    (hC : stCompactCloseForwards = true := by decide) (hP : stPeekCloseForwards = true := by decide)
-    (hCh : stChunkCloseForwards = true := by decide) (hFS : stFlattenSlicesCloseForwards = true := by decide) :
+at most one base step (under the same context), `Close` is exactly one base `Close` (the regenerated
+`s.inner.Close()` facts, `Proofs/StreamFacts.lean`, are used by the `*_forwards` lemmas). -/
+theorem spipe_forwards {σ0 : Type} (base : SM σ0 α) (p : SPipe α) :
     Forwards base (p.machine base).m (p.machine base).proj := by
   have _ties := And.intro Skeleton.Tie.stFilter (And.intro Skeleton.Tie.stMap (And.intro Skeleton.Tie.stFirst
     (And.intro Skeleton.Tie.stWhile (And.intro Skeleton.Tie.stCompact (And.intro Skeleton.Tie.stPeek
     (And.intro Skeleton.Tie.stChunk Skeleton.Tie.stFlattenSlices))))))
   induction p with
   | src => exact Forwards.refl base
-  | filter keep p ih => exact ih.comp (filter_forwards (liftCb keep) _ hFi)
-  | map f p ih => exact ih.comp (map_forwards (liftCb f) _ hM)
-  | first n p ih => exact ih.comp (first_forwards _ hF)
-  | while_ f p ih => exact ih.comp (while_forwards (liftCb f) _ hW)
-  | compact eq p ih => exact ih.comp (compact_forwards eq _ hC)
-  | peek p ih => exact ih.comp (withPeek_forwards _ hP)
-  | chunkFlat n p ih => exact (ih.comp (chunk_forwards (n : Int) _ hCh)).comp (flattenSlices_forwards _ hFS)
+  | filter keep p ih => exact ih.comp (filter_forwards (liftCb keep) _)
+  | map f p ih => exact ih.comp (map_forwards (liftCb f) _)
+  | first n p ih => exact ih.comp (first_forwards _)
+  | while_ f p ih => exact ih.comp (while_forwards (liftCb f) _)
+  | compact eq p ih => exact ih.comp (compact_forwards eq _)
+  | peek p ih => exact ih.comp (withPeek_forwards _)
+  | chunkFlat n p ih => exact (ih.comp (chunk_forwards (n : Int) _)).comp (flattenSlices_forwards _)
 
 /-! ## what a failure of the base stream can turn into -/
 
